@@ -398,6 +398,10 @@ class Integer(Element):
 class Decimal(Element):
     __type__ = decimal.Decimal
 
+    # Fixing the scale mustn't depend on the precision (28 digits by default) or
+    # the traps of whatever arithmetic context the calling thread happens to have
+    QUANTIZE_CONTEXT = decimal.Context(prec=decimal.MAX_PREC)
+
     def __init__(self, *args, **kwargs):
         super().__init__(*args, **kwargs)
         #  Rewrite ``self.scale`` from # of digits to a ``decimal.Decimal`` instance
@@ -418,7 +422,7 @@ class Decimal(Element):
         if not value.is_finite():
             raise OFXSpecError(f"'{value}' is not a finite number")
         if self.scale is not None:
-            value = value.quantize(self.scale)
+            value = value.quantize(self.scale, context=self.QUANTIZE_CONTEXT)
         return value
 
     @convert.register
@@ -433,7 +437,7 @@ class Decimal(Element):
             raise OFXSpecError(f"'{value}' is not a finite number")
 
         if self.scale is not None:
-            dec = dec.quantize(self.scale)
+            dec = dec.quantize(self.scale, context=self.QUANTIZE_CONTEXT)
 
         return dec
 
